@@ -119,6 +119,8 @@ def get_case(script, handler_outcomes, final_status, file_backed, msg_id=9, cons
         handled.append(i)
         o = handler_outcomes[i]
         if o == 'raise':
+            if hasattr(ds, 'read') and (i + msg_id) % 2 == 0:
+                ds.close()          # (looked at it, closed it, rejected it)
             raise exceptions.EventHandlingError('scripted')
         if file_backed and hasattr(ds, 'read') and (i + msg_id) % 3 == 0:
             # a handler that copies the instance away and closes the file it was given
@@ -151,7 +153,12 @@ def get_case(script, handler_outcomes, final_status, file_backed, msg_id=9, cons
     store_alias = alias(sopclass.storage_scu, [], False)
     if file_backed and file_backed != 'late':
         store_alias.store_in_file = True
-    ae.add_scu(store_alias, sops)
+    if file_backed == 'mixed':
+        # one class is spooled to files, the other kept in memory - both arrive in the same C-GET
+        ae.add_scu(store_alias, sops[:1])
+        ae.add_scu(alias(sopclass.storage_scu, [], False), sops[1:])
+    else:
+        ae.add_scu(store_alias, sops)
     state = {'ids': {}, 'store_reqs': []}
 
     def responder(dul, rec):
@@ -245,7 +252,7 @@ def get_case(script, handler_outcomes, final_status, file_backed, msg_id=9, cons
         os.unlink(archive['path'])
     for (kind, item, _closed), i in zip(yielded, want):
         ds = dss[i]
-        if file_backed:
+        if file_backed and not (file_backed == 'mixed' and i % 2 == 1):
             if kind != 'file':
                 raise Violation('%s:get:yield-type' % PROP, 'file-backed class delivered as %s' % kind, case)
             import io
@@ -343,7 +350,7 @@ def run_random(ctx, n):
         st.integers(0, 127).map(lambda x: 2 * x + 1))
     get = st.tuples(st.just('get'), st.lists(st.sampled_from('SSSP'), min_size=0, max_size=8).map(''.join),
                     st.lists(st.sampled_from(['s', 's', 'w', 'f', 'raise']), min_size=8, max_size=8),
-                    st.sampled_from([0x0000, 0xB000, 0xA701, 0xC000, 0xFE00]), st.sampled_from([False, True, 'archive', 'late']), st.integers(0, 65535))
+                    st.sampled_from([0x0000, 0xB000, 0xA701, 0xC000, 0xFE00]), st.sampled_from([False, True, 'archive', 'late', 'mixed']), st.integers(0, 65535))
 
     def fn(value):
         if value[0] == 'move':
@@ -362,7 +369,7 @@ def run_random(ctx, n):
 
 def run_get_enum(ctx):
     for script in ('', 'S', 'SP', 'PS', 'SS', 'SPS', 'PSSP', 'SSS', 'PPSPS'):
-        for fb in (False, True, 'archive', 'late'):
+        for fb in (False, True, 'archive', 'late', 'mixed'):
             for hi, hos in enumerate((['s'] * 8, ['w', 'f', 's', 'raise'] * 2, ['raise'] * 8)):
                 ctx.case(('get', script, fb, hos[0]), script.count('S') >= 2 or 'P' in script,
                          labels=['get', 'enum', ('spool-file' if fb == 'archive' else 'file') if fb else 'memory'],
